@@ -13,7 +13,8 @@ ENC = ["cincoconfig.fields.secure_field.SecureField.to_basic", "cincoconfig.fiel
        "cincoconfig.core.Config._keyfile", "cincoconfig.encryption.KeyFile.encrypt", "cincoconfig.encryption.KeyFile.decrypt"]
 ROOTK, CTK, SUBK = "/k/root.key", "/k/ct.key", "/k/sub.key"
 DEFAULTK = Config.DEFAULT_CINCOKEY_FILEPATH
-KEYS = {ROOTK: bytes([11]) * 32, CTK: bytes([22]) * 32, SUBK: bytes([33]) * 32, DEFAULTK: bytes([44]) * 32}
+# (valid 32-byte keys whose LAST byte is a line feed / carriage return: key files are binary, nothing is trimmed)
+KEYS = {ROOTK: bytes([11]) * 31 + b"\n", CTK: bytes([22]) * 32, SUBK: bytes([33]) * 31 + b"\r", DEFAULTK: bytes([44]) * 32}
 PLAIN = {"seclist.0": "l0-secret", "seclist.1": "l1-secret", "pw": "r-secret", "sub.pw": "s-secret", "sub.deep.pw": "d-sécret", "ct.pw": "c-secret",
          "items.0": "i0-secret", "items.1": "i1-secret", "titems.0": "t0-secret"}
 METHODS = ("xor", "aes", "best")
@@ -328,4 +329,58 @@ def standalone_then_attached(where: int, used_alone: int, mi: int) -> bool:
         fresh.load_tree(tree)
         got = fresh.sub.pw if where == 0 else fresh.items[0].pw
         hold("attached", got == "p-secret", "the saved tree does not load back under the parent's key file")
+    return True
+
+
+# --------------------------------------------------------------------------- a sub-configuration's own key file and loads
+@obligation(prop="C03", sites=("subkey",), stubs=("FakeFS", "MemFormat"), budget={"quick": 120, "thorough": 300},
+            encodes=["cincoconfig.core.Config._set_value", "cincoconfig.core.Config._keyfile",
+                     "cincoconfig.fields.secure_field.SecureField.to_python"],
+            what="a key file assigned to a SUB-configuration (the root naming another one or none): the saved tree / "
+                 "document carries the sub-configuration's secrets under that key file, a configuration set up the "
+                 "same way loads them back (tree and document route), only the two named key files are opened, and "
+                 "after the load the sub-configuration still resolves to its own key file (a second save agrees)")
+def subconfig_keyfile_survives_load(root_named: bool, route: int, mi: int, deep: bool) -> bool:
+    """
+    pre: 0 <= route <= 1 and 0 <= mi <= 1
+    post: _
+    """
+    method = "xor" if mi == 0 else "aes"
+    fs = FakeFS(files=dict(KEYS), dirs=["/k", DEFAULTK.rsplit("/", 1)[0] or "/"])
+    mem = MemStore()
+    with fs.patched(), mem.registered():
+        schema = Schema()
+        schema.pw = SecureField(method=method)
+        schema.sub.pw = SecureField(method=method)
+        schema.sub.deep.pw = SecureField(method=method)
+
+        def build():
+            cfg = schema(key_filename=ROOTK if root_named else None)
+            (cfg.sub.deep if deep else cfg.sub)._key_filename = SUBK
+            return cfg
+        src = build()
+        src.pw, src.sub.pw, src.sub.deep.pw = "r-secret", "s-secret", "d-secret"
+        tree = src.to_tree()
+        root_key = ROOTK if root_named else DEFAULTK
+        mid_key = root_key if deep else SUBK
+        for leaf, keypath, text in ((tree["pw"], root_key, "r-secret"), (tree["sub"]["pw"], mid_key, "s-secret"),
+                                    (tree["sub"]["deep"]["pw"], SUBK, "d-secret")):
+            hold("subkey", _decrypt(leaf, KEYS[keypath]) == text, lambda: "secret %r not under %s" % (text, keypath))
+        fresh = build()
+        opens0 = len(fs.opens)
+        try:
+            if route == 0:
+                fresh.load_tree(tree)
+            else:
+                fresh.loads(src.dumps(format="mem"), format="mem")
+            err = None
+        except Exception as exc:  # noqa: BLE001
+            err = exc
+        hold("subkey", err is None, lambda: "a configuration set up the same way cannot load the tree back: %r" % (err,))
+        hold("subkey", (fresh.pw, fresh.sub.pw, fresh.sub.deep.pw) == ("r-secret", "s-secret", "d-secret"), "plaintexts differ")
+        hold("subkey", set(p for p, _ in fs.opens[opens0:]) <= {root_key, SUBK}, "another key file was opened by the load")
+        again = fresh.to_tree()
+        hold("subkey", _decrypt(again["sub"]["deep"]["pw"], KEYS[SUBK]) == "d-secret"
+             and _decrypt(again["sub"]["pw"], KEYS[mid_key]) == "s-secret",
+             "after the load the sub-configuration no longer uses the key file that was assigned to it")
     return True
